@@ -41,3 +41,10 @@ Section C12.
 End C12.
 Print Assumptions C12_upgrade_step.
 Print Assumptions C12_authenticate_is_read_only.
+
+(* ---- the model's state space is the code's declared state ----
+   (theories/StateInst.v: package-level variables and struct fields listed by tools/facts on every
+   run; the models keep no state between operations other than these components) *)
+From Whawty Require StateInst.
+Theorem C12_agent_state_inventory : StateInst.agent_state_inventory.
+Proof. exact StateInst.agent_state_inventory_holds. Qed.
